@@ -396,9 +396,20 @@ def build(case):
         reset = variant == 'reset_sometimes' and it.get('reset_before')
         if variant == 'bfinal' and it.get('reset_before'):
             # RFC 7692 7.2.3.4: finish the stream (BFINAL=1), append 0x00
-            c = zlib.compressobj(pp['level'], zlib.DEFLATED,
-                                 -max(9, p['sw']), 8, pp['strategy'])
-            out = c.compress(payload) + c.flush(zlib.Z_FINISH) + b'\x00'
+            # ... possibly several times within one message (1-6 finished
+            # streams one after the other)
+            k = [1, 1, 2, 4, 6][it.get('fseed', 0) % 5]
+            step = max(1, (len(payload) + k - 1) // k)
+            pieces = [payload[j:j + step]
+                      for j in range(0, len(payload), step)] or [b'']
+            out = b''
+            for piece in pieces:
+                c = zlib.compressobj(pp['level'], zlib.DEFLATED,
+                                     -max(9, p['sw']), 8, pp['strategy'])
+                out += c.compress(piece) + c.flush(zlib.Z_FINISH)
+            out += b'\x00'
+            if len(pieces) >= 4:
+                enc.probes['peer_bfinal1_many_streams_in_one_message'] += 1
             dp._c = None        # the peer's context starts afresh afterwards
             bfinal_used[0] = True
             enc.probes['peer_bfinal1'] += 1
